@@ -233,7 +233,7 @@ bool Executor::native(State &s, CallBase *cb, Function *f, std::vector<Val> &a, 
         if (n == "nixsym_assert") {
             Val c = a[0];
             std::string msg = a.size() > 1 ? readCString(s, a[1].lo) : "";
-            assertsChecked++;
+            assertsChecked++; s.assertedAny = true;
             if (c.k == Val::INT || c.k == Val::UNDEF) {
                 bool v = c.bits == 1 ? (c.lo & 1) : c.lo != 0;
                 if (!v) fail(s, "assert", msg, cb, nullptr);
